@@ -15,7 +15,8 @@ EXTRACT_DIRECTIVES = ["ExtrOcamlBasic: bool,option,unit,list,prod,sum,sumbool,su
 # concrete failing input of THAT property ("hard"), and kinds that only show the tie model<->code is broken ("soft").
 PLAN = {
     "C01": dict(families=["mix", "names", "delay", "rename"],
-                hard=["MISMATCH out-missing", "MISMATCH decode-count", "MISMATCH reader-stalled", "MISMATCH reader-reader-exited", "MISMATCH stalled"],
+                hard=["MISMATCH out-missing", "MISMATCH decode-count", "MISMATCH reader-stalled", "MISMATCH reader-reader-exited", "MISMATCH stalled",
+                      "SPEC C01-delete-self-suppressed-but-parent-never-reported"],
                 soft=["MISMATCH out-op"]),
     "C02": dict(families=["mix", "fault", "delay"],
                 hard=["MISMATCH out-extra", "SPEC C02-empty-op", "SPEC C02-name-not-watched"], soft=[]),
@@ -26,10 +27,12 @@ PLAN = {
                 soft=["MISMATCH tpath"]),
     "C08": dict(families=["names", "mix", "alias"], hard=["MISMATCH out-name", "SPEC C08-nul-in-name"], soft=[]),
     "C09": dict(families=["delay", "alias"],
-                hard=["MISMATCH list", "MISMATCH api-remove", "MISMATCH api-add", "MISMATCH out-extra", "MISMATCH out-missing"],
+                hard=["MISMATCH list", "MISMATCH api-remove", "MISMATCH api-add", "MISMATCH out-extra", "MISMATCH out-missing",
+                      "SPEC C01-delete-self-suppressed-but-parent-never-reported"],
                 soft=["MISMATCH tpath", "MISMATCH twd"]),
     "C10": dict(families=["delay", "mix", "fault"], hard=["MISMATCH out-errors", "SPEC C10-error-on-benign-history"], soft=[]),
-    "C11": dict(families=["rename", "fault"], hard=["MISMATCH out-from"], soft=[]),
+    "C11": dict(families=["rename", "fault"],
+                hard=["MISMATCH out-from", "SPEC C11-lost-partner", "SPEC C11-false-partner", "SPEC C11-ring-overrun"], soft=[]),
     "C12": dict(families=["alias", "delay", "mix"],
                 hard=["SPEC C12-kernel-vs-tables", "SPEC C12-table-sizes", "SPEC dangling-path-entry", "MISMATCH marks",
                       "KERNEL model-queued-more-than-real", "KERNEL auto-record-unpredicted", "KERNEL auto-record-differs"],
@@ -145,7 +148,7 @@ def key_for(kind):
 
 
 def corpus_scripts(pid):
-    return sorted(glob.glob(os.path.join(CORPUS, "*.script")))
+    return sorted(glob.glob(os.path.join(CORPUS, "*.script")) + glob.glob(os.path.join(CORPUS, "known", "*.script")))
 
 
 def run_ino_property(run, quick_n=24, thorough_n=400, steps=45):
@@ -207,8 +210,11 @@ def run_ino_property(run, quick_n=24, thorough_n=400, steps=45):
     for kind in plan["hard"]:
         if kind not in allkinds:
             continue
-        hard_found = True
         r, hs, lines = allkinds[kind][0]
+        if key_for(kind) in run.known:      # a recorded finding: reproduced, reported as such, no replay needed
+            run.violation(key_for(kind), "%s: %s" % (kind, lines[0] if lines else ""), {})
+            continue
+        hard_found = True
         rep = make_replay(inobin, r, hs[0], kind, lines, pid)
         run.violation(key_for(kind) + rep.get("signature", ""), "%s: %s" % (kind, lines[0] if lines else ""), rep)
     if not hard_found:
